@@ -142,6 +142,9 @@ func hexOne(sym []int, salt int) {
 		}
 	}
 	e := &ev{C: "hex", Text: actual, Raw: text}
+	if len(e.Raw) > 2000 {
+		e.Raw = e.Raw[:2000] // the symbol classes in Text are complete; Raw is for the reader
+	}
 	var out []byte
 	var err error
 	func() {
@@ -185,6 +188,50 @@ func famHexDom(maxLen int) {
 
 // famHexRnd: random byte strings rendered with random spacing / comments / line splits, and random corruptions
 func famHexRnd(iters int) {
+	// large texts: single physical lines beyond 64 KiB (compact and spaced), a very long comment, many lines
+	bigByte := func(sym []int, sep bool) []int {
+		b := rng.Intn(256)
+		sym = append(sym, b>>4, b&15)
+		if sep {
+			sym = append(sym, 16)
+		}
+		return sym
+	}
+	for k := 0; k < 4; k++ {
+		var sym []int
+		switch k {
+		case 0: // > 64 KiB of compact hex on one line, then a second line
+			for i := 0; i < 33000+rng.Intn(3000); i++ {
+				sym = bigByte(sym, false)
+			}
+			sym = append(sym, 17)
+			sym = bigByte(sym, true)
+		case 1: // "XX " style, > 64 KiB on the second line
+			sym = bigByte(sym, true)
+			sym = append(sym, 17)
+			for i := 0; i < 22500+rng.Intn(2000); i++ {
+				sym = bigByte(sym, true)
+			}
+		case 2: // a comment longer than 64 KiB, bytes before and after it
+			sym = bigByte(sym, true)
+			sym = append(sym, 18)
+			for i := 0; i < 66000+rng.Intn(3000); i++ {
+				sym = append(sym, []int{10, 5, 16, 19, 3}[rng.Intn(5)])
+			}
+			sym = append(sym, 17)
+			for i := 0; i < 20; i++ {
+				sym = bigByte(sym, true)
+			}
+		default: // many short lines
+			for i := 0; i < 300; i++ {
+				for j := rng.Intn(4); j >= 0; j-- {
+					sym = bigByte(sym, true)
+				}
+				sym = append(sym, 17)
+			}
+		}
+		hexOne(sym, k)
+	}
 	for it := 0; it < iters; it++ {
 		n := rng.Intn(40)
 		var sym []int
